@@ -110,9 +110,9 @@ func c18Classify(rt cexec.Ret) c18Path {
 			if a.Holds == (a.Op == "!=") {
 				mismatch = true
 			}
-		case a.Op == "!=" && strings.HasSuffix(a.R, ".ipv6_addr"):
+		case (a.Op == "!=" || a.Op == "==") && strings.HasSuffix(a.R, ".ipv6_addr"):
 			v6cmp++
-			if a.Holds {
+			if a.Holds == (a.Op == "!=") {
 				mismatch = true
 			}
 		case strings.HasPrefix(a.L, "nonnull:mapval:allowed_ranges"):
